@@ -63,3 +63,6 @@ pub mod c1315;
 // termination test / certificates / report (C01-C03)
 // ---------------------------------------------------------------------------
 pub mod term;
+// chordal analysis / decomposition (C17, C18)
+#[cfg(feature = "sdp")]
+pub mod c1718;
